@@ -1852,10 +1852,20 @@ class Obj(Container):
         if itmd is None:
             expanded = self.sympy
         else:
-            expanded = itmd.expand_itmd(
-                indices=self.idx, return_sympy=True, fully_expand=fully_expand
-            )
-            expanded = Pow(expanded, self.exponent)
+            exponent = self.exponent
+            if sympify(exponent).is_Integer and exponent > 1:
+                # each factor of the power needs its own contracted indices
+                expanded = Mul(*(
+                    itmd.expand_itmd(indices=self.idx, return_sympy=True,
+                                     fully_expand=fully_expand)
+                    for _ in range(int(exponent))
+                ))
+            else:
+                expanded = itmd.expand_itmd(
+                    indices=self.idx, return_sympy=True,
+                    fully_expand=fully_expand
+                )
+                expanded = Pow(expanded, exponent)
 
         if return_sympy:
             return expanded
